@@ -6,3 +6,4 @@ import Bp7.Props.C14
 #print axioms Bp7.C14.ffi_ledger_balanced
 #print axioms Bp7.C14.pinned_leaks
 #print axioms Bp7.C14.null_payload_balanced
+#print axioms Bp7.C14.metadata_spec
